@@ -21,6 +21,23 @@ precondition does not hold is skipped and counted):
     ["ext", j, k, e]                  add_extension(EXTS[e]) on the k-th file resource of job j
     ["write", kind, a, k, d]          b.write_output(resource, DESTS[d]); kind "job" (k-th valid resource of job a),
                                       "in" (a-th input file; URL inputs only)
+    ["pyjob", name, img]              b.new_python_job(name=NAMES[name]); img=1 also calls .image(PYIMAGE)
+    ["call", p, f, [arg, ...], [[kw, arg], ...]]
+                                      result = (p-th python job).call(FUNCS[f], *args, **{KWNAMES[kw]: arg}); an arg is
+                                        ["val", v]          the plain Python value VALUES[v]
+                                        ["in", k] / ["ing", k, m] / ["oth", j, k]     as in commands
+                                        ["pyr", j, k, how]  k-th result of the j-th *other* python job: the PythonResult
+                                                            itself (how null) or result.as_str/as_repr/as_json() (how 0/1/2)
+                                        ["res", k, how]     the same for an earlier result of this python job
+                                        ["lst", [arg, ...]] / ["tup", [arg, ...]] / ["dct", [[kw, arg], ...]]
+                                                            list / tuple / dict holding further args
+    ["conv", p, k, how]               (k-th result of the p-th python job).as_str() / as_repr() / as_json(); may repeat
+                                      (a repeated call must hand back the same resource or a resource with its own path)
+
+"cmd", "declare" and "ext" address Bash jobs only, "call" and "conv" python jobs only; "write" and ["oth", ...] address
+all jobs.  Commands of Bash jobs may also name ["pyr", j, k, how]; a Bash reference that resolves to a PythonResult
+itself is turned into one of its converted files (the documented route), how taken from the reference.
+"pyimg": 1 builds the Batch with default_python_image=PYIMAGE.
 
 "tok" feeds hailtop.batch.batch.secret_alnum_string (job tokens, input roots) and "uid" feeds uuid4 in backend.py:
 an int k names the k-th pool value (so two draws can collide), null is a fresh never-repeated value.
@@ -31,7 +48,9 @@ import contextlib
 import io
 import json
 import os
+import pickle
 import posixpath
+import re
 import shlex
 import warnings
 
@@ -40,14 +59,22 @@ from vlib.runner import Result, known_signatures
 
 PROPERTY = 'C18'
 LEVEL = 'exploration'
-RULE = ('DSL programs of 3-16 ops over Bash jobs: read_input (local paths and gs:// URLs, names with spaces/quotes), '
+RULE = ('DSL programs of 3-24 ops over Bash and Python jobs: read_input (local paths and gs:// URLs, names with spaces/quotes), '
         'read_input_group, declare_resource_group, add_extension, write_output, and commands assembled from literal '
         'fragments (alphabet: letters, digits, space, tab, newline, quotes, $, backslash, braces, |;&>/.-=) interleaved '
-        'with references to own / other-job / input resources, optionally padded past 10 KiB; random names (job tokens, '
-        'input roots, uuids) are drawn from the case. The program runs through the real Batch._async_run + '
-        'ServiceBackend._async_run(wait=False) against a recording fake batch client / fs. The oracle never calls '
-        '_get_path: the local path of a resource is read back from the recorded command at the reference site. '
-        'Non-trivial: >= 1 cross-job resource edge and (a resource group or an add_extension); distinct by case.')
+        'with references to own / other-job / input resources, optionally padded past 10 KiB; PythonJob.call(f, *args, '
+        '**kwargs) with module-level functions of the check (builtins are generated too, see the notes) and arguments drawn '
+        'from plain values, input files / groups, files / groups / group members of other jobs, PythonResults of other '
+        'python jobs and of earlier calls of the same job, also nested in lists / tuples / dicts; results converted with '
+        'any subset of as_str / as_repr / as_json (repeated calls included) and consumed by Bash commands, by other python '
+        'jobs and by write_output; random names (job tokens, input roots incl. those of the pickled function / argument '
+        'files, uuids) are drawn from the case. The program runs through the real Batch._async_run + '
+        'ServiceBackend._async_run(wait=False) (incl. PythonJob._compile over a pickle-backed dill) against a recording '
+        'fake batch client / fs. The oracle never calls _get_path: the local path of a resource is read back from the '
+        'recorded command at the reference site; for python jobs the sites are the open(...) calls of the generated '
+        'wrapper (result file, function file, argument file, one write per converted file) and the paths inside the '
+        'uploaded, unpickled argument file. Non-trivial: >= 1 cross-job resource edge and (a resource group, an '
+        'add_extension or a converted PythonResult); distinct by case.')
 ASSUMPTIONS = [
     'ServiceBackend is built with object.__new__ and given remote_tmpdir/regions/billing project directly; the network '
     'boundary (AioBatchClient, RouterAsyncFS incl. the GCS cold-storage validation, copy_from_dict upload of local '
@@ -56,7 +83,18 @@ ASSUMPTIONS = [
     'backslash-escaped character',
     'identifiers are Python identifiers, extensions start with ".", group templates have the form "{root}.<name>", so '
     'file names chosen by the user inside one job are distinct by construction; write_output of an input resource is '
-    'only exercised for URL inputs; PythonJob is out of scope (dill absent)',
+    'only exercised for URL inputs',
+    'dill is absent: vlib/hostenv.py serves a pickle-backed module of that name, so the callables handed to '
+    'PythonJob.call are importable module-level functions of checks/c18.py (or builtins); lambdas, closures and async '
+    'callables (which only real dill can serialize) are out of scope, and no python job is ever executed: the wrapper '
+    'code is read, not run. The file names PythonJob picks for results, converted files and pickled function / argument '
+    'files are not documented and not judged; that distinct resources get distinct paths is',
+    'the resource model of a python job: every call() yields one PythonResult resource; as_str/as_repr/as_json yield '
+    'one JobResourceFile each (a repeated call may return the same object; a different object is a further resource); '
+    'one pickled function file per distinct callable per batch (may be shared by jobs) and one pickled argument file '
+    'per call are internal input resources: each must be uploaded (fs.write) exactly where the job downloads it from, '
+    'unpickle to the callable / to the arguments with every resource replaced by its local path, and share its '
+    'local / remote path with no other resource',
     'documented file naming is part of the oracle: a job resource file is named <identifier><extension>, a group member '
     '<group root>.<member>, an input file keeps the source basename',
 ]
@@ -76,9 +114,37 @@ MARK = '${BATCH_TMPDIR}'
 LIT_ALPHABET = ' abz019\t\n\'"$\\{}|;&>/.-='
 BIG_PAD = ' #' + 'x' * 10300
 
+PYIMAGE = 'hailgenetics/python-dill:3.11-slim'
+VALUES = [0, 'abc', 2.5, None, True, 'two words', [1, 'x'], {'k': [1, 2]}, (1, ('y', 2))]
+KWNAMES = ['x', 'path', 'opt']
+HOWS = ['str', 'repr', 'json']
+FORMATTERS = {'str': 'str', 'repr': 'repr', 'json.dumps': 'json'}
+JOBFILE = ('jrf', 'mem', 'pyres', 'conv')           # files living in the scratch directory of the job that writes them
+INPUTLIKE = ('in', 'inmem', 'pyfn', 'pyargs')       # files living under inputs/<random root>/
+
+
+def py_pack(*args, **kwargs):
+    return [list(args), kwargs]
+
+
+def py_count(*args, **kwargs):
+    return len(args) + len(kwargs)
+
+
+def py_show(*args, **kwargs):
+    return ' '.join([str(a) for a in args] + [f'{k}={v}' for k, v in sorted(kwargs.items())])
+
+
+# callables for PythonJob.call: module-level functions (picklable by reference, inspect.getsource works) and builtins
+FUNCS = [py_pack, py_count, py_show, print, repr]
+
 # failure signatures that can be excluded by construction (guards) once they are listed as known findings
 GUARDABLE = ('job-token-collision', 'input-root-collision', 'input-group-basename-collision',
-             'extension-after-reference', 'reference-followed-by-digit', 'strip-eats-escaped-whitespace')
+             'extension-after-reference', 'reference-followed-by-digit', 'strip-eats-escaped-whitespace',
+             'python-builtin-callable')
+# reported, not (yet) listed in known_findings.json: excluded by construction in *every* shard until listed; once listed
+# as known the usual regime applies (shards 0-3 re-demonstrate it, the others exclude it)
+PENDING = ('python-builtin-callable',)
 
 
 # ------------------------------------------------------------------------------------------------ fakes
@@ -291,6 +357,14 @@ class MRes:
         self.dests = []
 
     def label(self):
+        if self.kind == 'pyres':
+            return f'job{self.job}.result{self.n}'
+        if self.kind == 'conv':
+            return f'job{self.job}.result{self.of.n}.as_{self.how}()' + (f'#{self.nth}' if self.nth > 1 else '')
+        if self.kind == 'pyfn':
+            return f'function-file({self.ident})'
+        if self.kind == 'pyargs':
+            return f'job{self.job}.call{self.n}.args-file'
         if self.kind == 'in':
             return f'input({self.path})'
         if self.kind == 'inmem':
@@ -332,6 +406,10 @@ class MJob:
         self.consumed = []         # targets from elsewhere referenced by this job
         self.token = None
         self.deps = set()
+        self.py = False            # a PythonJob
+        self.results = []          # PythonResults (MRes 'pyres'), call order
+        self.calls = []            # dict(res=MRes, fi=int, fobj=callable, builtin=bool, args=[model], kwargs={kw: model}, argres=MRes)
+        self.internal = set()      # (remote, local) of the pickled function / argument files this job downloads
 
 
 def _quote_ok(q):
@@ -353,6 +431,7 @@ def run_case(case, sess, guards=frozenset()):
     A random-name collision or equal basenames inside an input group make several clauses fail at once (whichever sees
     the shared path first); such cases are reported under the signature of the cause so that signatures are stable."""
     sess.causes = []
+    sess.excluded_builtin = 0
     nt, classes, fails, skipped, excluded = _run_case(case, sess, guards)
     if fails and sess.causes:
         keep = [f for f in fails if f[0] in GUARDABLE]
@@ -391,13 +470,101 @@ def _run_case(case, sess, guards=frozenset()):
     gid = [0]
     any_group = any_ext = False
     roots_used = set()
+    fnres = {}                 # index into FUNCS -> MRes 'pyfn' (one pickled function file per callable per batch)
+    pyflags = set()
+    builtin_calls = []
+
+    def convert(res, how):
+        """res.as_<how>(): the same object again is the same resource, a different object is a further resource"""
+        obj = getattr(res.obj, 'as_' + how)()
+        have = res.conv.setdefault(how, [])
+        for c in have:
+            if c.obj is obj:
+                pyflags.add('python_conversion_repeated')
+                return c
+        c = new_res('conv', job=res.job)
+        c.of, c.how, c.obj, c.nth = res, how, obj, len(have) + 1
+        have.append(c)
+        pj = jobs[res.job]
+        pj.file_list.append(c)
+        pj.valid.append(c)
+        pj.mentioned.add(c.rid)
+        return c
+
+    def resolve(part, mj):
+        k = part[0]
+        if k == 'pyr':
+            pys = [o for o in jobs if o.py and o.idx != mj.idx and o.results]
+            if not pys:
+                return None
+            o = pys[part[1] % len(pys)]
+            res = o.results[part[2] % len(o.results)]
+            how = part[3]
+            if how is None:
+                if mj.py:
+                    return res
+                how = part[2]
+            return convert(res, HOWS[how % len(HOWS)])
+        if k == 'res':
+            if not mj.py or not mj.results:
+                return None
+            res = mj.results[part[1] % len(mj.results)]
+            return res if part[2] is None else convert(res, HOWS[part[2] % len(HOWS)])
+        if mj.py and k in ('own', 'owng'):
+            return None
+        t = _resolve(part, mj, jobs, inputs, ingroups, new_res)
+        if not mj.py and isinstance(t, MRes) and t.kind == 'pyres':
+            # a command cannot name a PythonResult (documented BatchException); the documented route is a converted file
+            t = convert(t, HOWS[part[2] % len(HOWS)])
+        return t
+
+    def target(part, mj):
+        """resolve + the no-cycle precondition; registers the dependency"""
+        t = resolve(part, mj)
+        if t is not None and t.job is not None and t.job != mj.idx and _reaches(jobs, t.job, mj.idx):
+            t = None           # would close a dependency cycle (C17's subject)
+        if t is not None and t.job is not None and t.job != mj.idx:
+            mj.deps.add(t.job)
+        return t
+
+    def build_arg(a, mj, leaves, depth=0):
+        """symbolic python argument -> (model, actual object) or None"""
+        nonlocal skipped
+        k = a[0]
+        if k == 'val':
+            v = VALUES[a[1] % len(VALUES)]
+            return ('val', v), v
+        if k in ('lst', 'tup'):
+            built = [x for x in (build_arg(e, mj, leaves, depth + 1) for e in a[1]) if x is not None] if depth < 2 else []
+            models, actual = [m for m, _ in built], [o for _, o in built]
+            pyflags.add('python_arg_nested')
+            return (k, models), (actual if k == 'lst' else tuple(actual))
+        if k == 'dct':
+            models, actual = {}, {}
+            for kw, e in (a[1] if depth < 2 else []):
+                name = KWNAMES[kw % len(KWNAMES)]
+                if name in models:
+                    continue
+                x = build_arg(e, mj, leaves, depth + 1)
+                if x is not None:
+                    models[name], actual[name] = x
+            pyflags.add('python_arg_nested')
+            return ('dct', models), actual
+        t = target(a, mj)
+        if t is None:
+            skipped += 1
+            return None
+        leaves.append(t)
+        return ('res', t), t.obj
 
     with warnings.catch_warnings(), contextlib.redirect_stdout(out):
         warnings.simplefilter('ignore')
-        b = hb.Batch(backend=sess.backend)
+        b = hb.Batch(backend=sess.backend, default_python_image=PYIMAGE if case.get('pyimg') else None)
         try:
             for op in case['ops']:
                 kind = op[0]
+                bash = [j for j in jobs if not j.py]
+                pys = [j for j in jobs if j.py]
                 if kind == 'input':
                     r = new_res('in', path=PATHS[op[1] % len(PATHS)])
                     draws.purpose = 'root'
@@ -459,11 +626,87 @@ def _run_case(case, sess, guards=frozenset()):
                                             f'never records the tokens it hands out, so both use scratch dir <name>-<token>'))
                     draws.purpose = 'root'
                     jobs.append(mj)
-                elif kind == 'declare':
-                    if not jobs:
+                elif kind == 'pyjob':
+                    name = NAMES[op[1] % len(NAMES)]
+                    mj = MJob(len(jobs), name)
+                    mj.py = True
+                    draws.purpose = 'job'
+                    mj.obj = b.new_python_job(name=name)
+                    if op[2]:
+                        mj.obj.image(PYIMAGE)
+                    mj.token = draws.log[-1][1]
+                    if any(o.token == mj.token and o.name == name for o in jobs):
+                        sess.causes.append(('job-token-collision',
+                                            f'two jobs named {name!r} both drew token {mj.token!r}: Batch._unique_job_token '
+                                            f'never records the tokens it hands out, so both use scratch dir <name>-<token>'))
+                    draws.purpose = 'root'
+                    jobs.append(mj)
+                elif kind == 'call':
+                    if not pys:
                         skipped += 1
                         continue
-                    mj = jobs[op[1] % len(jobs)]
+                    mj = pys[op[1] % len(pys)]
+                    fi = op[2] % len(FUNCS)
+                    builtin = not hasattr(FUNCS[fi], '__code__')
+                    if builtin and 'python-builtin-callable' in guards:
+                        excluded += 1
+                        sess.excluded_builtin += 1
+                        fi, builtin = fi % 3, False
+                    fobj = FUNCS[fi]
+                    leaves = []
+                    built = [x for x in (build_arg(a, mj, leaves) for a in op[3]) if x is not None]
+                    kmodels, kactual = {}, {}
+                    for kw, a in op[4]:
+                        kwname = KWNAMES[kw % len(KWNAMES)]
+                        if kwname in kmodels:
+                            continue
+                        x = build_arg(a, mj, leaves)
+                        if x is not None:
+                            kmodels[kwname], kactual[kwname] = x
+                    r = new_res('pyres', job=mj.idx)
+                    r.n = len(mj.results) + 1
+                    r.conv = {}
+                    r.obj = mj.obj.call(fobj, *[o for _, o in built], **kactual)
+                    mj.results.append(r)
+                    mj.file_list.append(r)
+                    mj.valid.append(r)
+                    mj.mentioned.add(r.rid)
+                    for t in leaves:
+                        if t.job == mj.idx:
+                            pyflags.add('python_result_reused_in_job')
+                            continue
+                        mj.consumed.append(t)
+                        if isinstance(t, MGrp):
+                            pyflags.add('python_arg_resource_group')
+                        elif t.kind == 'pyres':
+                            pyflags.add('python_result_consumed_by_python')
+                        elif t.kind == 'conv':
+                            pyflags.add('python_converted_consumed_by_python')
+                        elif t.kind in ('in', 'inmem'):
+                            pyflags.add('python_arg_input')
+                        else:
+                            pyflags.add('python_arg_job_file')
+                    if fi not in fnres:
+                        fnres[fi] = new_res('pyfn', ident=fobj.__name__)
+                    argres = new_res('pyargs', job=mj.idx)
+                    argres.n = r.n
+                    mj.calls.append(dict(res=r, fi=fi, fobj=fobj, builtin=builtin, args=[m for m, _ in built],
+                                         kwargs=kmodels, argres=argres))
+                    if builtin:
+                        builtin_calls.append((mj.idx, fobj.__name__))
+                    if kmodels:
+                        pyflags.add('python_call_kwargs')
+                elif kind == 'conv':
+                    mj = pys[op[1] % len(pys)] if pys else None
+                    if mj is None or not mj.results:
+                        skipped += 1
+                        continue
+                    convert(mj.results[op[2] % len(mj.results)], HOWS[op[3] % len(HOWS)])
+                elif kind == 'declare':
+                    if not bash:
+                        skipped += 1
+                        continue
+                    mj = bash[op[1] % len(bash)]
                     gname = GNAMES[op[2] % len(GNAMES)]
                     mnames = []
                     for m in op[3]:
@@ -487,23 +730,19 @@ def _run_case(case, sess, guards=frozenset()):
                     mj.valid.extend(g.members.values())
                     any_group = True
                 elif kind == 'cmd':
-                    if not jobs:
+                    if not bash:
                         skipped += 1
                         continue
-                    mj = jobs[op[1] % len(jobs)]
+                    mj = bash[op[1] % len(bash)]
                     parts = []
                     for part in op[2]:
                         if isinstance(part, str):
                             parts.append(part)
                             continue
-                        t = _resolve(part, mj, jobs, inputs, ingroups, new_res)
-                        if t is not None and t.job is not None and t.job != mj.idx and _reaches(jobs, t.job, mj.idx):
-                            t = None           # would close a dependency cycle (C17's subject)
+                        t = target(part, mj)
                         if t is None:
                             skipped += 1
                             continue
-                        if t.job is not None and t.job != mj.idx:
-                            mj.deps.add(t.job)
                         parts.append(('ref', t))
                     if op[3]:
                         parts.append(BIG_PAD)
@@ -568,6 +807,8 @@ def _run_case(case, sess, guards=frozenset()):
                                         t.sites_before_ext += 1
                                 else:
                                     mj.consumed.append(t)
+                                    if t.kind == 'conv':
+                                        pyflags.add('python_result_consumed_by_bash')
                                     if t.ext == '' and t.kind in ('jrf', 'mem'):
                                         t.sites_before_ext += 1
                             else:
@@ -577,10 +818,10 @@ def _run_case(case, sess, guards=frozenset()):
                                     mj.consumed.append(t)
                     mj.cmds.append(dict(pieces=pieces, hazards=hazards, big=bool(op[3]), text=text))
                 elif kind == 'ext':
-                    if not jobs:
+                    if not bash:
                         skipped += 1
                         continue
-                    mj = jobs[op[1] % len(jobs)]
+                    mj = bash[op[1] % len(bash)]
                     if not mj.file_list:
                         skipped += 1
                         continue
@@ -620,6 +861,8 @@ def _run_case(case, sess, guards=frozenset()):
                             continue
                         b.write_output(t.obj, dest)
                         t.dests.append(dest)
+                        if isinstance(t, MRes) and t.kind in ('pyres', 'conv'):
+                            pyflags.add('python_result_written')
                 else:
                     raise ValueError(f'unknown op {op!r}')
         except BatchException as e:
@@ -628,14 +871,23 @@ def _run_case(case, sess, guards=frozenset()):
 
         if not jobs:
             return False, ['no_jobs'], fails, skipped, excluded + draws.excluded
+        draws.purpose = 'root'     # run() draws further input roots: code.sh, pickled function / argument files
         try:
             b.run(wait=False, disable_progress_bar=True)
         except Exception as e:
             import traceback
             tb = traceback.extract_tb(e.__traceback__)
             where = next((f'{os.path.basename(f.filename)}:{f.name}' for f in reversed(tb) if '/hailtop/' in f.filename), '?')
-            fail(f'run-raised-{type(e).__name__}-{where}', 'a well-formed program is submitted',
-                 f'run() raised {type(e).__name__}: {e}')
+            if builtin_calls and isinstance(e, TypeError) and where == 'job.py:_compile' and \
+                    any(f.name == 'getsource' for f in tb):
+                ji, fname = builtin_calls[0]
+                fail('python-builtin-callable', 'a well-formed program is submitted',
+                     f'job {ji} calls the builtin {fname}: PythonJob.call accepts it (it even tolerates builtins without a '
+                     f'readable signature) but run() raises from PythonJob._compile, which wants inspect.getsource of the '
+                     f'callable for the user_code display -> {type(e).__name__}: {e}')
+            else:
+                fail(f'run-raised-{type(e).__name__}-{where}', 'a well-formed program is submitted',
+                     f'run() raised {type(e).__name__}: {e}')
             return False, sorted(classes), fails, skipped, excluded + draws.excluded
 
     # ---------------------------------------------------------------- observations
@@ -679,6 +931,9 @@ def _run_case(case, sess, guards=frozenset()):
             return False, sorted(classes), fails, skipped, excluded + draws.excluded
         mj.symlinks = lines[3]
         body = '\n'.join(lines[4:-1])
+        if mj.py:
+            _parse_python_job(mj, body, sess, fail, fnres, LT)
+            continue
         if not mj.cmds:
             if body != '':
                 fail('command-literal-changed', 'nothing else in the command changes',
@@ -730,6 +985,7 @@ def _run_case(case, sess, guards=frozenset()):
 
     # ---- per-resource path facts
     all_res = list(inputs) + [m for g in ingroups for m in g.members.values()] + [r for mj in jobs for r in mj.file_list]
+    all_res += [fnres[k] for k in sorted(fnres)] + [c['argres'] for mj in jobs for c in mj.calls]
     all_grp = list(ingroups) + [g for mj in jobs for g in mj.groups.values()]
     for g in all_grp:
         roots = sorted({G for G, _ in g.roots})
@@ -762,12 +1018,13 @@ def _run_case(case, sess, guards=frozenset()):
                  f'{r.label()}: referenced as {stale} before add_extension({r.ext!r}); later references'
                  f'{" " + str(with_ext) if with_ext else ""} and the upload/download use the renamed file, commands '
                  f'already interpolated keep the old name')
-        elif len(seen) > 1:
+        elif len(seen) > 1 and r.kind != 'pyfn':    # (jobs may or may not share the pickled file of one callable)
             fail('same-resource-different-paths', 'a resource has one local path', f'{r.label()}: {seen}')
         r.L = with_ext[0] if with_ext else None
         for L, had, *_ in r.locals:
-            want = r.fname(with_ext=False) + had if r.kind in ('jrf', 'mem') else r.fname()
-            if posixpath.basename(L) != want:
+            # (the names PythonJob picks for results / converted / pickled files are not documented: not judged)
+            want = r.fname(with_ext=False) + had if r.kind in ('jrf', 'mem') else r.fname() if r.kind in ('in', 'inmem') else None
+            if want is not None and posixpath.basename(L) != want:
                 sig = 'extension-dropped' if had and posixpath.basename(L) == r.fname(with_ext=False) else 'file-name'
                 fail(sig, 'a resource file is named <identifier><extension> / keeps the input basename',
                      f'{r.label()}: local path {L!r}, expected file name {want!r}')
@@ -878,11 +1135,25 @@ def _run_case(case, sess, guards=frozenset()):
             r.__dict__.setdefault('remotes', set()).add(R)
         if len(mj.inputs) != len(set(mj.inputs)):
             fail('duplicate-transfer', 'each file is transferred once', f'job {mj.idx} input_files {mj.inputs}')
-        n_code = 1 if any(c['big'] for c in mj.cmds) else 0
+        n_code = (1 if any(c['big'] for c in mj.cmds) else 0) + len(mj.internal)
         if len(set(mj.inputs)) > explained + n_code and not fails:
             fail('unexpected-input', 'only the resources a job reads are downloaded',
                  f'job {mj.idx}: input_files {mj.inputs}; expected {[r.label() for r in need.values()]}')
         want_links = []
+        for t in mj.consumed:
+            if isinstance(t, MGrp) and t.job is None and t.G is None:
+                # the group is only ever passed to python jobs (as a dict of member paths): its root shows in no command;
+                # take it from the symlinks of this job if they agree on one
+                roots = set()
+                for n, m in t.members.items():
+                    for dest, src in links.items():
+                        if src == mj.in_local.get(m.rid) and dest.endswith('.' + n):
+                            roots.add(dest[:-len(n) - 1])
+                if len(roots) == 1:
+                    t.G = roots.pop()
+                elif not fails:
+                    fail('input-group-symlinks', 'an input group is reachable as <group root>.<member>',
+                         f'job {mj.idx} is handed {t.label()}; symlink line {mj.symlinks!r} names no common root')
         for t in mj.consumed:
             if isinstance(t, MGrp) and t.job is None and t.G is not None:
                 for n, m in t.members.items():
@@ -960,7 +1231,7 @@ def _run_case(case, sess, guards=frozenset()):
             if L is not None:
                 Ls.add(L)
             Ls |= r.__dict__.get('in_locals', set())
-            for L in Ls:
+            for L in sorted(Ls):
                 loc.setdefault(L, []).append(r)
         rem = {}
         for r in all_res:
@@ -973,7 +1244,7 @@ def _run_case(case, sess, guards=frozenset()):
                     continue
                 rs = sorted({r.rid: r for r in rs}.values(), key=lambda r: r.rid)
                 a, c = rs[0], rs[1]
-                if a.kind in ('jrf', 'mem') and c.kind in ('jrf', 'mem') and a.job != c.job and \
+                if a.kind in JOBFILE and c.kind in JOBFILE and a.job != c.job and \
                         jobs[a.job].token == jobs[c.job].token:
                     fail('job-token-collision', 'distinct resources never share a path',
                          f'{a.label()} and {c.label()} share {where} path {pth}: jobs {a.job} and {c.job} both got token '
@@ -982,7 +1253,7 @@ def _run_case(case, sess, guards=frozenset()):
                     fail('input-group-basename-collision', 'distinct resources never share a path',
                          f'{a.label()} and {c.label()} share {where} path {pth}: members of one read_input_group with '
                          f'equal basenames are both placed at <root>/<basename>')
-                elif a.kind in ('in', 'inmem') and c.kind in ('in', 'inmem'):
+                elif a.kind in INPUTLIKE and c.kind in INPUTLIKE:
                     fail('input-root-collision', 'distinct resources never share a path',
                          f'{a.label()} and {c.label()} share {where} path {pth}: same random root and basename')
                 else:
@@ -1005,8 +1276,180 @@ def _run_case(case, sess, guards=frozenset()):
         classes.add('input_group_symlinks')
     if any(q != w for mj in jobs for q, w in getattr(mj, 'quoted', [])):
         classes.add('path_needed_quoting')
-    nontrivial = edges >= 1 and (any_group or any_ext)
+    any_conv = False
+    if any(mj.py for mj in jobs):
+        classes.add('python_job')
+        classes.update(pyflags)
+        results = [r for mj in jobs for r in mj.results]
+        if results:
+            classes.add('python_call')
+        if any(len(mj.results) > 1 for mj in jobs):
+            classes.add('python_job_several_calls')
+        any_conv = any(r.conv for r in results)
+        if any_conv:
+            classes.add('python_result_converted')
+        if any(len(r.conv) >= 2 for r in results):
+            classes.add('python_result_converted_twice')
+        if any('str' in r.conv and 'repr' in r.conv for r in results):
+            classes.add('python_result_as_str_and_as_repr')
+        if len(fnres) > 1:
+            classes.add('python_several_functions')
+        users = {}
+        for mj in jobs:
+            for c in mj.calls:
+                users.setdefault(c['fi'], set()).add(mj.idx)
+        if any(len(u) > 1 for u in users.values()):
+            classes.add('python_function_shared_by_jobs')
+        if any(mj.py and not mj.calls for mj in jobs):
+            classes.add('python_job_without_call')
+    nontrivial = edges >= 1 and (any_group or any_ext or any_conv)
     return nontrivial, sorted(classes), fails, skipped, excluded + draws.excluded
+
+
+_RE_OPEN = re.compile(r"open\('\$\{BATCH_TMPDIR\}([^\n]*?)', '(wb|rb|w)'\) as (\w+):(?:\n\s*out\.write\(([\w.]+)\(result\))?")
+
+
+def _plain(v):
+    """how a plain argument travels inside the pickled argument file (documented: containers are searched for resources)"""
+    if isinstance(v, list):
+        return ('list', [_plain(e) for e in v])
+    if isinstance(v, tuple):
+        return ('tuple', tuple(_plain(e) for e in v))
+    if isinstance(v, dict):
+        return ('dict', {k: _plain(e) for k, e in v.items()})
+    return ('value', v)
+
+
+def _walk_arg(model, got, mj, bad):
+    """compare one pickled argument with the model; resource leaves are reference sites (local path recorded)"""
+    k = model[0]
+    if not (isinstance(got, tuple) and len(got) == 2):
+        return bad(f'{got!r} is not a (tag, value) pair')
+    tag, val = got
+    if k == 'val':
+        if got != _plain(model[1]) or repr(got) != repr(_plain(model[1])):
+            bad(f'plain value {model[1]!r} travels as {got!r}')
+    elif k == 'res':
+        t = model[1]
+        if isinstance(t, MGrp):
+            if tag != 'dict_path' or not isinstance(val, dict) or sorted(val) != sorted(t.members) or \
+                    not all(isinstance(x, str) for x in val.values()):
+                return bad(f'resource group {t.label()} travels as {got!r}')
+            for n, m in t.members.items():
+                m.locals.append((val[n], m.ext, mj.idx, 'python arguments'))
+        else:
+            if tag != ('py_path' if t.kind == 'pyres' else 'path') or not isinstance(val, str):
+                return bad(f'{t.label()} travels as {got!r}')
+            t.locals.append((val, t.ext, mj.idx, 'python arguments'))
+    elif k in ('lst', 'tup'):
+        if tag != {'lst': 'list', 'tup': 'tuple'}[k] or type(val) is not {'lst': list, 'tup': tuple}[k] or \
+                len(val) != len(model[1]):
+            return bad(f'{k} of {len(model[1])} travels as {got!r}')
+        for m, g in zip(model[1], val):
+            _walk_arg(m, g, mj, bad)
+    else:
+        if tag != 'dict' or not isinstance(val, dict) or list(val) != list(model[1]):
+            return bad(f'dict with keys {list(model[1])} travels as {got!r}')
+        for n, m in model[1].items():
+            _walk_arg(m, val[n], mj, bad)
+
+
+def _parse_python_job(mj, body, sess, fail, fnres, LT):
+    """Reference sites of a python job: the open(...) calls of each generated wrapper and the pickled argument file."""
+    if not mj.calls:
+        if body != '':
+            fail('command-literal-changed', 'nothing else in the command changes',
+                 f'python job {mj.idx} has no call but body {body[:200]!r}')
+        return
+    if not (body.startswith('{\n') and body.endswith('\n}')):
+        fail('wrapper-unrecognised', 'user command can be located in the submitted command', f'python job body {body[:300]!r}')
+        return
+    chunks = body[2:-2].split('\n} && {\n')
+    if len(chunks) != len(mj.calls):
+        fail('python-call-count', 'every call of a python job is submitted',
+             f'job {mj.idx}: {len(mj.calls)} call(s) but {len(chunks)} wrapper(s)')
+        return
+    for call, chunk in zip(mj.calls, chunks):
+        res = call['res']
+        what = f'job {mj.idx} call {res.n}'
+        sites = {'dill_out': [], 'func_file': [], 'arg_file': [], 'out': []}
+        found = _RE_OPEN.findall(chunk)
+        if chunk.count(MARK) != len(found) or not chunk.startswith('python3 -c "') or not chunk.endswith('"'):
+            fail('reference-count', 'every resource reference is replaced by its quoted local path',
+                 f'{what}: wrapper names {chunk.count(MARK)} scratch paths, {len(found)} of them in recognised open() calls: '
+                 f'{chunk[-700:]!r}')
+            return
+        for q, mode, var, fmt in found:
+            w = _quote_ok(q)
+            if w is None:
+                fail('reference-not-quoted-path', 'every resource reference is replaced by its quoted local path',
+                     f'{what}: open({MARK + q!r})')
+                return
+            mj.__dict__.setdefault('quoted', []).append((q, w))
+            if var not in sites or mode != {'dill_out': 'wb', 'func_file': 'rb', 'arg_file': 'rb', 'out': 'w'}[var] or \
+                    (var == 'out') != bool(fmt) or (fmt and fmt not in FORMATTERS):
+                fail('wrapper-unrecognised', 'user command can be located in the submitted command',
+                     f'{what}: open(..., {mode!r}) as {var} {fmt}')
+                return
+            sites[var].append((LT + w, fmt))
+        if not (len(sites['dill_out']) == len(sites['func_file']) == len(sites['arg_file']) == 1):
+            fail('wrapper-unrecognised', 'user command can be located in the submitted command', f'{what}: sites {sites}')
+            return
+        res.locals.append((sites['dill_out'][0][0], res.ext, mj.idx, 'python wrapper'))
+        # converted files: one write with the right formatter per converted resource
+        outs = {}
+        for L, fmt in sites['out']:
+            outs.setdefault(FORMATTERS[fmt], []).append(L)
+        for how in HOWS:
+            convs, got = res.conv.get(how, []), outs.get(how, [])
+            if len(convs) != len(got):
+                fail('python-conversion-missing' if len(got) < len(convs) else 'python-conversion-unexpected',
+                     'the producing job writes each converted file of a PythonResult (and nothing else)',
+                     f'{what}: {[c.label() for c in convs]} but the wrapper writes {how}(result) to {got}')
+                continue
+            for c, L in zip(convs, got):
+                c.locals.append((L, c.ext, mj.idx, 'python wrapper'))
+        # internal input files: uploaded exactly where this job downloads them from, with the right content
+        for r, (L, _), role in ((fnres[call['fi']], sites['func_file'][0], 'function'), (call['argres'], sites['arg_file'][0], 'arguments')):
+            r.locals.append((L, r.ext, mj.idx, 'python wrapper'))
+            cands = [R for R, Lx in mj.inputs if Lx == L]
+            if len(cands) != 1:
+                fail('consumer-input-missing', 'the consumer downloads every resource it reads',
+                     f'{what} opens its pickled {role} at {L} but input_files = {mj.inputs}')
+                continue
+            R = cands[0]
+            mj.internal.add((R, L))
+            r.__dict__.setdefault('remotes', set()).add(R)
+            r.__dict__.setdefault('in_locals', set()).add(L)
+            if not R.startswith(REMOTE_TMPDIR + '/'):
+                fail('remote-outside-tmpdir', 'temporary data lives under remote_tmpdir', f'{r.label()}: {R}')
+            data = sess.fs.writes.get(R)
+            if data is None:
+                fail('python-file-not-uploaded', 'the producer uploads to exactly the location the consumer downloads from',
+                     f'{what} downloads its pickled {role} from {R}; uploaded: {sorted(sess.fs.writes)}')
+                continue
+            try:
+                obj = pickle.loads(data)
+            except Exception as e:
+                fail('python-file-content', 'python callables and arguments are passed unchanged', f'{r.label()} at {R}: {e!r}')
+                continue
+            if role == 'function':
+                if obj is not call['fobj']:
+                    fail('python-file-content', 'python callables and arguments are passed unchanged',
+                         f'{what} calls {call["fobj"].__name__} but {R} holds {obj!r}')
+                continue
+            msgs = []
+            if not (isinstance(obj, tuple) and len(obj) == 2 and isinstance(obj[0], list) and isinstance(obj[1], dict)
+                    and len(obj[0]) == len(call['args']) and list(obj[1]) == list(call['kwargs'])):
+                msgs.append(f'shape {obj!r}')
+            else:
+                for m, g in zip(call['args'], obj[0]):
+                    _walk_arg(m, g, mj, msgs.append)
+                for n, m in call['kwargs'].items():
+                    _walk_arg(m, obj[1][n], mj, msgs.append)
+            if msgs:
+                fail('python-args-changed', 'python arguments are passed unchanged, every resource as its local path',
+                     f'{what}: {msgs[0]} (argument file {R})')
 
 
 def _reaches(jobs, a, b):
@@ -1152,8 +1595,36 @@ def strategy():
         st.tuples(st.just('owng'), small, opt),
         st.tuples(st.just('in'), small),
         st.tuples(st.just('ing'), small, opt),
+        st.tuples(st.just('pyr'), small, small, st.integers(0, 2)),
+        st.tuples(st.just('pyr'), small, small, st.integers(0, 2)),
     ).map(list)
     parts = st.lists(st.one_of(lit, ref, ref), min_size=1, max_size=6)
+    # python jobs
+    # (leaves are enumerated, simplest first, and drawn with one choice each: operands are taken modulo the number of live
+    # objects, so small ranges reach everything, and generation time is dominated by the number of draws)
+    hows = [None, 0, 1, 2]
+    leaf = st.one_of(
+        st.sampled_from([['val', v] for v in range(len(VALUES))]),
+        st.sampled_from([['val', v] for v in range(len(VALUES))]),
+        st.sampled_from([['in', k] for k in range(3)] + [['ing', k, m] for k in range(2) for m in hows]),
+        st.sampled_from([['oth', j, k] for j in range(4) for k in range(5)]),
+        st.sampled_from([['oth', j, k] for j in range(4) for k in range(5)]),
+        st.sampled_from([['pyr', j, k, h] for j in range(3) for k in range(3) for h in hows]),
+        st.sampled_from([['pyr', j, k, h] for j in range(3) for k in range(3) for h in hows]),
+        st.sampled_from([['res', k, h] for k in range(3) for h in hows]),
+    )
+    kwidx = st.integers(0, len(KWNAMES) - 1)
+    arg = st.one_of(
+        leaf, leaf, leaf, leaf,
+        st.tuples(st.sampled_from(['lst', 'tup']), st.lists(leaf, max_size=3)).map(list),
+        st.tuples(st.just('dct'), st.lists(st.tuples(kwidx, leaf).map(list), max_size=2)).map(list),
+    )
+    func = st.sampled_from([0, 0, 0, 0, 0, 1, 1, 1, 1, 1, 2, 2, 2, 2, 3, 4])
+    args = st.lists(arg, max_size=3)
+    kwargs = st.lists(st.tuples(kwidx, arg).map(list), max_size=2)
+    call = st.tuples(st.just('call'), small, func, args, kwargs)
+    conv = st.tuples(st.just('conv'), small, small, st.integers(0, 2))
+    pyjob = st.tuples(st.just('pyjob'), small, st.integers(0, 1))
     big = st.sampled_from([0] * 24 + [1])
     input_op = st.tuples(st.just('input'), st.integers(0, len(PATHS) - 1)).map(list)
     ingroup_op = st.tuples(st.just('ingroup'), st.lists(st.tuples(st.integers(0, 4), st.integers(0, len(PATHS) - 1)).map(list),
@@ -1168,6 +1639,7 @@ def strategy():
         st.tuples(st.just('ext'), small, small, st.integers(0, len(EXTS) - 1)),
         st.tuples(st.just('ext'), small, small, st.integers(0, len(EXTS) - 1)),
         st.tuples(st.just('write'), st.sampled_from(['job', 'job', 'job', 'in']), small, small, st.integers(0, len(DESTS) - 1)),
+        pyjob, call, call, conv, conv,
     ).map(list)
     draw_v = st.sampled_from([None] * 10 + [0, 1])
 
@@ -1175,15 +1647,28 @@ def strategy():
     def programs(draw):
         ops = list(draw(st.lists(st.one_of(input_op, ingroup_op), max_size=2)))
         nj = draw(st.integers(1, 4))
-        for j in range(nj):
+        nb = npy = 0               # "cmd"/"declare" count Bash jobs, "call"/"conv" count python jobs
+        for _ in range(nj):
+            if draw(st.integers(0, 2)) == 0:
+                ops.append(['pyjob', draw(small), draw(st.integers(0, 1))])
+                for c in range(draw(st.sampled_from([0, 1, 1, 1, 2]))):
+                    ops.append(['call', npy, draw(func), draw(args), draw(kwargs)])
+                    for h in draw(st.lists(st.integers(0, 2), max_size=3)):
+                        ops.append(['conv', npy, c, h])
+                npy += 1
+                continue
             ops.append(['job', draw(small)])
             if draw(st.integers(0, 3)) == 0:
-                ops.append(['declare', j, draw(st.integers(0, 1)), draw(st.lists(st.integers(0, 4), min_size=1, max_size=3))])
+                ops.append(['declare', nb, draw(st.integers(0, 1)), draw(st.lists(st.integers(0, 4), min_size=1, max_size=3))])
             if draw(st.integers(0, 5)) > 0:
                 first = [draw(lit), ['own', draw(small)]] + draw(st.lists(st.one_of(lit, ref, ref), max_size=4))
-                ops.append(['cmd', j, first, draw(big)])
+                ops.append(['cmd', nb, first, draw(big)])
+            nb += 1
         ops += draw(st.lists(op, max_size=8))
-        return {'tok': draw(st.lists(draw_v, max_size=8)), 'uid': draw(st.lists(draw_v, max_size=4)), 'ops': ops}
+        case = {'tok': draw(st.lists(draw_v, max_size=8)), 'uid': draw(st.lists(draw_v, max_size=4)), 'ops': ops}
+        if npy or any(o[0] == 'pyjob' for o in ops):
+            case['pyimg'] = draw(st.integers(0, 1))
+        return case
 
     return programs()
 
@@ -1199,9 +1684,11 @@ def _guards(spec):
     env = os.environ.get('VERIF_C18_GUARD')
     if env is not None:
         return frozenset(GUARDABLE if env == 'all' else [s for s in env.split(',') if s])
+    known = known_signatures(PROPERTY)
+    pending = frozenset(s for s in PENDING if s not in known)
     if not spec.get('guarded'):
-        return frozenset()
-    return frozenset(s for s in known_signatures(PROPERTY) if s in GUARDABLE)
+        return pending
+    return frozenset(s for s in known if s in GUARDABLE) | pending
 
 
 def run_shard(spec, seed, tier):
@@ -1214,6 +1701,9 @@ def run_shard(spec, seed, tier):
             res.skipped_ops += skipped
             if excluded:
                 res.notes['excluded_steps'] = res.notes.get('excluded_steps', 0) + excluded
+            nb = sess.excluded_builtin
+            if nb:
+                res.notes['excluded_builtin_callables'] = res.notes.get('excluded_builtin_callables', 0) + nb
             return nt, cls, fl
 
         search(res, PROPERTY, strategy(), chk, spec['n'], seed, max_rounds=10)
